@@ -2,6 +2,7 @@ package main
 
 import (
 	"fmt"
+	"math"
 	"time"
 
 	"github.com/go-spatial/geom"
@@ -143,8 +144,131 @@ func classifySeg(p, q ref.P, res int64) string {
 	return fmt.Sprintf("end-on-border=%s/%s,through-corner=%v,axis-parallel=%v", on(p), on(q), thru, dx == 0 || dy == 0)
 }
 
+// c02RealWindow: every non-empty hot set of a 2x2 window of a real grid block x every ordered pair of
+// lattice points in hot pixels; the reference sees the coordinates as the tool's quantisation does.
+func c02RealWindow(r *ev.Run, rep *scopeReport, gs GridSpec, shardI, shardN int) {
+	g := gs.Build()
+	const W = 2
+	sub := g.Sub
+	res := g.ResDeepest
+	tw := g.TMS.TileMatrices[0].TileWidth
+	level := uint(g.Deepest) + uint(math.Log2(float64(tw))) + 4
+	n := int(sub)*W + 1
+	unitsOf := func(p ref.P) (ref.P, [2]float64) {
+		u := g.U(p)
+		f := g.F(u)
+		return ref.P{grid.Quantise(f[0]) - g.MinX - g.AnchorPx[0]*res, grid.Quantise(f[1]) - g.MinY - g.AnchorPx[1]*res}, f
+	}
+	for mask := 1; mask < 1<<uint(W*W); mask++ {
+		if mask%shardN != shardI {
+			continue
+		}
+		rep.States++
+		var hot []ref.PX
+		isHot := map[ref.PX]bool{}
+		ix, err := pointindex.FromTileMatrixSet(g.TMS, g.Deepest)
+		if err != nil {
+			ev.HarnessError("%v", err)
+		}
+		for b := 0; b < W*W; b++ {
+			if mask>>uint(b)&1 == 1 {
+				px := ref.PX{int64(b % W), int64(b / W)}
+				hot = append(hot, px)
+				isHot[px] = true
+				_, f := unitsOf(ref.P{px[0]*sub + sub/2, px[1]*sub + sub/2})
+				if err := ix.InsertPoint(geom.Point(f)); err != nil {
+					ev.HarnessError("InsertPoint: %v", err)
+				}
+			}
+		}
+		for a := 0; a < n*n; a++ {
+			pu, pf := unitsOf(ref.P{int64(a % n), int64(a / n)})
+			if !isHot[ref.PixOf(pu, res)] {
+				continue
+			}
+			for b := 0; b < n*n; b++ {
+				if a == b {
+					continue
+				}
+				qu, qf := unitsOf(ref.P{int64(b % n), int64(b / n)})
+				if !isHot[ref.PixOf(qu, res)] {
+					continue
+				}
+				want := ref.Route(pu, qu, hot, res)
+				got := ix.SnapClosestPoints(geom.Line{pf, qf}, map[uint]any{level: struct{}{}}, 0)[level]
+				rep.Calls++
+				rep.Transitions++
+				if len(want) > 2 {
+					rep.Nontrivial++
+				}
+				ok := len(got) == len(want)
+				var gotPx []ref.PX
+				for k := range got {
+					px, dok := g.Decode(g.Deepest, got[k])
+					gotPx = append(gotPx, px)
+					if !dok || !ok || px != want[k] {
+						ok = false
+					}
+				}
+				if !ok {
+					r.Violation("routing-real-grid:"+classifySeg(pu, qu, res), fmt.Sprintf("%s: segment %v -> %v routed through pixels %v (coordinates %v), reference says %v (hot %v)", g.String(), pf, qf, gotPx, got, want, hot),
+						map[string]any{"grid": gs, "hot": hot, "p": pf, "q": qf, "want": want, "got": got})
+				}
+			}
+		}
+	}
+}
+
+// selfCheckRouter compares the reference router with brute-force sampling of the segment at
+// t = k/1680 (a multiple of every critical parameter's denominator on the quarter-pixel lattice of
+// a 2x2 window, and of their midpoints): hot pixels containing a sample, ordered by first sample.
+func selfCheckRouter() int64 {
+	const sub, W, N = 4, 2, 1680
+	n := sub*W + 1
+	var checked int64
+	for mask := 1; mask < 1<<uint(W*W); mask++ {
+		var hot []ref.PX
+		for b := 0; b < W*W; b++ {
+			if mask>>uint(b)&1 == 1 {
+				hot = append(hot, ref.PX{int64(b % W), int64(b / W)})
+			}
+		}
+		for a := 0; a < n*n; a++ {
+			for b := 0; b < n*n; b++ {
+				if a == b {
+					continue
+				}
+				p, q := ref.P{int64(a % n), int64(a / n)}, ref.P{int64(b % n), int64(b / n)}
+				want := ref.Route(p, q, hot, sub)
+				var got []ref.PX
+				seen := map[ref.PX]bool{}
+				for k := int64(0); k <= N; k++ {
+					// point p + k/N (q-p), scaled by N
+					x, y := p[0]*N+k*(q[0]-p[0]), p[1]*N+k*(q[1]-p[1])
+					px := ref.PX{ref.FloorDiv(x, sub*N), ref.FloorDiv(y, sub*N)}
+					for _, h := range hot {
+						if h == px && !seen[px] {
+							seen[px] = true
+							got = append(got, px)
+						}
+					}
+				}
+				if fmt.Sprint(got) != fmt.Sprint(want) {
+					ev.HarnessError("reference router disagrees with brute-force sampling for %v -> %v hot %v: %v vs %v", p, q, hot, want, got)
+				}
+				checked++
+			}
+		}
+	}
+	return checked
+}
+
 func c02API(r *ev.Run, shardI, shardN int) scopeReport {
 	t0 := time.Now()
+	var selfChecked int64
+	if shardI == 0 {
+		selfChecked = selfCheckRouter()
+	}
 	rep := scopeReport{Scope: "API-segments", Grid: "synthetic dyadic quadtree, depth 4..7", Exhaustive: true, Extra: map[string]int64{}}
 	thorough := r.Thorough()
 	type cfg struct{ deepest, req int }
@@ -186,8 +310,21 @@ func c02API(r *ev.Run, shardI, shardN int) scopeReport {
 			c02Window(r, &rep, 0, 0, 3, off, []int{0}, shardI, shardN)
 		}
 	}
+	// the same 2x2 quarter-pixel window on blocks of the real grids (coordinates in 1e-10 fixed point)
+	for _, a := range []struct {
+		set  string
+		z    int
+		x, y float64
+	}{{"NetherlandsRDNewQuad", 14, 155000, 463000}, {"NetherlandsRDNewQuad", 14, 20000.3, 380000.7}, {"NetherlandsRDNewQuad", 9, 20000.3, 380000.7}, {"WebMercatorQuad", 17, 550000.1, 6800000.2}} {
+		if r.Expired() {
+			rep.Exhaustive = false
+			break
+		}
+		c02RealWindow(r, &rep, realGS(a.set, a.z, 4, a.x, a.y), shardI, shardN)
+	}
 	rep.Bound = "2x2 pixel window, quarter-pixel lattice, every non-empty hot set x every ordered pair of lattice points in hot pixels; index depth 4..6 (thorough 7), requested id = deepest, deepest-1, deepest-2 with several child realisations; 5 placements incl. root centre and extent corners; plus the 3x3 window on the deepest id at 2 (thorough 6) placements"
 	rep.Inputs = rep.Calls
+	rep.Extra["reference-router-self-check(brute-force-sampling)"] = selfChecked
 	rep.States++ // compensated by the parent's shared-root correction
 	rep.WallS = time.Since(t0).Seconds()
 	return rep
